@@ -105,6 +105,39 @@ def param_variants(name):
     return out
 
 
+_EXTREME_CACHE = {}
+
+
+def param_extremes(name):
+    """for every integer algorithm parameter: the smallest and the largest value the configuration class's own validators accept (scanned from 0 up to the
+    documented value, and over a few multiples of it): list of (key, value). Thresholds at their lowest accepted value are where rarely taken branches run."""
+    if name in _EXTREME_CACHE:
+        return _EXTREME_CACHE[name]
+    cname, d = CFGS[name]
+    cls = getattr(pv, cname)
+    out = []
+
+    def ok(k, c):
+        dd = copy.deepcopy(d)
+        dd[k] = c
+        try:
+            cls(**dd)
+            return True
+        except Exception:  # noqa
+            return False
+    for k, v in d.items():
+        if k in BASE_KEYS or isinstance(v, bool) or not isinstance(v, int):
+            continue
+        lo = next((c for c in range(0, v) if ok(k, c)), None)
+        hi = next((c for c in (100 * v, 10 * v, 5 * v, 3 * v, 2 * v) if c > v and ok(k, c)), None)
+        if lo is not None:
+            out.append((k, lo))
+        if hi is not None and hi <= 1000:
+            out.append((k, hi))
+    _EXTREME_CACHE[name] = out
+    return out
+
+
 def make(name, **over):
     return OPTS[name](config_for(name, **over))
 
